@@ -44,7 +44,12 @@ def generate(rng, tier):
         src = {'kind': 'writer', 'program': wgen.gen_program(rng)}
         cut = None
     else:
-        spec, w, _ = gen.gen_world(rng, opts(tier))
+        from .c11 import maybe_daqmx_world
+        spec = maybe_daqmx_world(rng, 0.1)
+        if spec is None:
+            spec, w, _ = gen.gen_world(rng, opts(tier))
+        else:
+            w = build(spec)
         src = {'kind': 'stub', 'spec': spec}
         cut = None
         last = w.segs[-1]
@@ -115,7 +120,10 @@ def execute(case):
         if src['kind'] == 'stub':
             w = build(src['spec'])
             data, index = w.data, w.index
-            res.sig = ['stub', shape_sig(src['spec']), backend, case['cut'] is not None]
+            from .c04 import _sig
+            res.sig = ['stub', _sig(src['spec']), backend, case['cut'] is not None]
+            if any(sg.get('layout') == 'daqmx' for sg in src['spec']['segments']):
+                res.probe('daqmx-world')
             res.probe('stub-index')
             if any(s.get('pad') for s in src['spec']['segments']):
                 res.probe('padding')
@@ -262,5 +270,6 @@ def shrink_candidates(case):
 
 def sample(case):
     s = case['source']
-    return {'source': s['kind'], 'shape': shape_sig(s['spec']) if s['kind'] == 'stub' else prog_sig(s['program']),
+    from .c04 import _sig
+    return {'source': s['kind'], 'shape': _sig(s['spec']) if s['kind'] == 'stub' else prog_sig(s['program']),
             'backend': case['backend'], 'cut': case['cut']}
